@@ -43,11 +43,14 @@ def _configs(tier, seed):
     # blip_callable: callable currents that are constant except for a pulse covering 0.67 % of the run (anything the library
     # learns about the callable by SAMPLING it sees the pulse in about every second process);
     # monitor_on: the live monitor requested with a refresh interval (wall-clock seconds) much shorter than the run
-    kinds = kinds + ["blip_callable", "monitor_on"]
+    # decay_strict: a film driven normal (epsilon = -40: |psi| falls through the whole floating-point range, underflow included)
+    kinds = kinds + ["blip_callable", "monitor_on", "decay_strict"]
     for name in kinds:
         scr = name in ("screening", "screening_from_zero")
         nt = 2 if name in ("timedep_callable", "plain_adaptive", "blip_callable", "monitor_on") else (4 if name == "four_terminals_callable" else 0)
-        dev = zoo.gen_device(rng, n_terminals=nt, n_holes=1 if name == "fixed_holes" else 0, probes=2 if nt else 0, size="small" if not scr else "medium", smooth=int(rng.choice([0, 5])))
+        # (blip_callable: two holes - the mesher is handed a LIST of holes, whose order is part of the input)
+        dev = zoo.gen_device(rng, n_terminals=nt, n_holes=1 if name == "fixed_holes" else (2 if name == "blip_callable" else 0), probes=2 if nt else 0,
+                             size=("tiny" if name == "decay_strict" else "small") if not scr else "medium", smooth=int(rng.choice([0, 5])))
         if scr:
             dev["layer"]["lam"], dev["layer"]["d"] = 2.0, 0.1
         o = S.base_options(rng, adaptive=name != "fixed_holes", steps=25 if scr else 80, screening=scr)
@@ -57,9 +60,14 @@ def _configs(tier, seed):
             o = S.base_options(rng, adaptive=False, steps=300)
         if name == "monitor_on":
             o.update(monitor=True, monitor_update_interval=0.004, save_every=10**6)
+        if name == "decay_strict":
+            dev["layer"]["gamma"], dev["layer"]["u"] = 1.0, 1.0  # (|psi| ~ exp(-40 t): 1e-200 and below before the end of the run)
+            o = dict(solve_time=12.0, dt_init=1e-3, dt_max=0.02, adaptive=True, save_every=200, field_units="mT", current_units="uA", output="file")
         drive = {"A": S.field_spec(rng, dev, o, "ramp" if name in ("timedep_callable", "screening_from_zero") else "uniform", b=0.3),
                  "currents": S.current_spec(rng, dev, o, {"timedep_callable": "callable", "four_terminals_callable": "callable", "plain_adaptive": "const", "blip_callable": "blip", "monitor_on": "const"}.get(name, "none"), strength=0.2),
                  "epsilon": {"kind": "spatial_novec" if name == "epsilon_callable" else ("time" if name == "plain_adaptive" else "one")}}  # (plain_adaptive: epsilon(r, t))
+        if name == "decay_strict":
+            drive = {"A": {"kind": "zero"}, "epsilon": {"kind": "const", "value": -40.0}}
         cfgs.append({"name": name, "device": dev, "options": o, "drive": drive})
     return cfgs
 
@@ -77,7 +85,8 @@ def gen_cases(tier, seed):
                          "PYTHONHASHSEED": ["0", "1", "random"][i % 3]})
         for i, e in enumerate(envs):
             cases.append({"config": cfg["name"], "device": cfg["device"], "options": dict(cfg["options"], output=["file", "temp", "file", "occupied"][i % 4]), "drive": cfg["drive"],
-                          "env": e, "cwd_mode": ["outdir", "other"][i % 2], "rep": i, "cost": 10, "timeout": 600})
+                          "env": e, "cwd_mode": ["outdir", "other"][i % 2], "rep": i, "cost": 10, "timeout": 600,
+                          "np_seterr": None})  # (a caller-set numpy error policy is NOT varied: the unchanged tree itself depends on it, see DESIGN 7)
     for cfg in _configs(tier, seed):
         if cfg["name"] in ("screening", "plain_adaptive", "timedep_callable"):
             cases.append({"layer": "seed_reuse", "config": cfg["name"], "device": cfg["device"], "options": dict(cfg["options"], output="file"), "drive": cfg["drive"], "cost": 30, "timeout": 900})
@@ -92,7 +101,7 @@ def gen_cases(tier, seed):
         ang = float(rngh.uniform(0, 2 * np.pi))
         if k % 4 == 3:
             drive["A"] = S.field_spec(rngh, dev, o, "loop", b=0.25)  # a source that depends on z: the film's height matters
-        cases.append({"layer": "history", "config": f"history{k}", "between": "dz_copy" if k % 4 == 3 else None, "device": dev, "options": dict(o, output="file"), "drive": drive, "reuse_options": bool(o["adaptive"]),
+        cases.append({"layer": "history", "config": f"history{k}", "between": "dz_copy" if k % 4 == 3 else None, "device": dev, "options": dict(o, output="file"), "drive": drive, "reuse_options": bool(o["adaptive"]), "layer_sweep": bool(k % 4 in (1, 2)),
                       "translate": [[0.37, 3.1, 41.7][(k // 2) % 3] * np.cos(ang), [0.37, 3.1, 41.7][(k // 2) % 3] * np.sin(ang)] if k % 2 == 0 else None, "cost": 20, "timeout": 900})
     for k in range(2 if tier == "quick" else 6):
         # a time-dependent vector potential given as ONE plain Parameter object that the caller keeps: run, mention the object in an
@@ -195,9 +204,14 @@ def run_case(spec):
         if r0.exception is not None:
             return {"status": "harness_error", "error": "occupying run failed: " + repr(r0.exception)[:200]}
         spec = dict(spec, options=dict(spec["options"], output="file"))
+    old_err = None
+    if spec.get("np_seterr"):
+        old_err = np.seterr(all=spec["np_seterr"])  # the calling process's own numpy error policy
     try:
         rr = sim.run_sim(spec, [tm, sn], keep_dir=True, workdir=workdir)
     finally:
+        if old_err is not None:
+            np.seterr(**old_err)
         os.chdir(cwd)
     if rr.refused:
         return {"violations": [], "counters": {"refused_mesh": 1}, "classes": ["refused"], "nontrivial": False, "config": spec["config"]}
@@ -216,7 +230,7 @@ def run_case(spec):
 
     shutil.rmtree(rr.outdir, ignore_errors=True)
     return {"violations": V, "counters": C, "classes": ["config=" + spec["config"], f"threads={spec['env']['NUMBA_NUM_THREADS']}", "hashseed=" + spec["env"]["PYTHONHASHSEED"],
-                                                      "output=" + ("occupied" if workdir else spec["options"]["output"]), "cwd=" + spec["cwd_mode"]],
+                                                      "output=" + ("occupied" if workdir else spec["options"]["output"]), "cwd=" + spec["cwd_mode"], "np_seterr=" + str(spec.get("np_seterr"))],
             "nontrivial": len(ups) >= 10, "config": spec["config"], "digests": digests, "env": spec["env"], "rep": spec["rep"],
             "key": f"{spec['config']}|{spec['rep']}",
             "sample": {"config": spec["config"], "env": spec["env"], "updates": len(ups), "digests": {k: v[:16] for k, v in digests.items()}}}
@@ -307,7 +321,16 @@ def _run_history(spec):
         y["options"].update(adaptive=False, solve_time=30 * spec["options"]["dt_init"], terminal_psi=0.0)
         y["options"].pop("auto_dt", None)
         opts_obj = sim.build_options(y["options"], output_file=None)
+    layer_keep = None
+    if spec.get("layer_sweep"):
+        # a sweep over material parameters on ONE Device object: the earlier run saw other values, set back before X
+        Ly = used.layer
+        layer_keep = (Ly.london_lambda, Ly.thickness)
+        Ly.london_lambda, Ly.thickness = 1.7 * layer_keep[0], 0.6 * layer_keep[1]
+        _ = (used.K0, used.A0, used.Bc2)  # (the user looked at the scales of that material)
     r0 = sim.run_sim(y, [], device=used, options_obj=opts_obj)
+    if layer_keep is not None:
+        used.layer.london_lambda, used.layer.thickness = layer_keep
     if r0.refused:
         return {"violations": [], "counters": {"refused_mesh": 1}, "classes": ["refused"], "nontrivial": False}
     if r0.exception is not None and not (isinstance(r0.exception, RuntimeError) and "converge" in str(r0.exception)):
